@@ -39,9 +39,11 @@ var (
 		"b71c71a67e1177ad4e901695e1b4b9ee17ae16c6668d313eac2f96dbcda3f291", // rich
 		"8a1f9a8f95be41cd7ccb6168179afb4504aefe388d1e14474d32c45c72ce7b7a", // poor
 		"49a7b37aa6f6645917e7b807e9d1c00d4fa71f18343b0d4122a4d2df64dd6fee", // validator (funds the staking contract only)
+		"0cf7ae0332a891044cc8c63d6cb6e8a4a2fa1e9b3c5d7f0123456789abcdef01", // collider-code: CreateAddress(it, its nonce) holds an account with code
+		"1ab7ae0332a891044cc8c63d6cb6e8a4a2fa1e9b3c5d7f0123456789abcdef02", // collider-nonce: ... holds an account with only a non-zero nonce
 	}
 	keys    []*ecdsa.PrivateKey
-	senders []common.Address // 0 rich, 1 poor
+	senders []common.Address // 0 rich, 1 poor, 2 collider-code, 3 collider-nonce (the last two only in the collision family)
 	valAddr common.Address
 
 	addrCoinbase = fixedAddr("c09-coinbase", 1)
@@ -75,10 +77,18 @@ var (
 )
 
 func senderBalance(s int) *big.Int {
-	if s == 0 {
-		return richBalance
+	if s == 1 {
+		return poorBalance
 	}
-	return poorBalance
+	return richBalance
+}
+
+// senderKey: the private key of sender s (keys[2] is the validator).
+func senderKey(s int) *ecdsa.PrivateKey {
+	if s < 2 {
+		return keys[s]
+	}
+	return keys[s+1]
 }
 
 // ---------------------------------------------------------------------------------------------
@@ -194,12 +204,26 @@ const (
 	iRevert        // PUSH1 0 DUP1 REVERT
 	nFactoryInits
 )
-const nFactories = nFactoryOps * nFactoryInits
+const (
+	nExactFactories = nFactoryOps * nFactoryInits // the single-creation factories, with an exact gas figure
+	fTwiceEmpty     = nExactFactories             // CREATE2 twice, same salt, empty init code: the second collides
+	fTwiceDeploy    = nExactFactories + 1         // CREATE2 twice, same salt, deploying init code: the second collides
+	fOccupied       = nExactFactories + 2         // CREATE (empty init) into an address that is occupied in the genesis
+	nFactories      = nExactFactories + 3
+)
 
 var factoryOpNames = []string{"CREATE", "CREATE2"}
 var factoryInitNames = []string{"empty-init", "deploying-init", "burning-init", "reverting-init"}
 
 func factoryName(k int) string {
+	switch k {
+	case fTwiceEmpty:
+		return "CREATE2-twice-same-salt(empty-init)"
+	case fTwiceDeploy:
+		return "CREATE2-twice-same-salt(deploying-init)"
+	case fOccupied:
+		return "CREATE-into-occupied-address(empty-init)"
+	}
 	return factoryOpNames[k/nFactoryInits] + "(" + factoryInitNames[k%nFactoryInits] + ")"
 }
 func factoryAddr(k int) common.Address { return fixedAddr("c09-factory", byte(0x40+k)) }
@@ -221,6 +245,22 @@ func factoryInit(init int) (prelude []byte, offset, size byte) {
 }
 
 func factoryCode(k int) []byte {
+	switch k {
+	case fTwiceEmpty, fTwiceDeploy:
+		// CREATE2 POP CREATE2 (end of code): the colliding second CREATE2 leaves the frame without gas, so nothing may follow it
+		init := iEmpty
+		if k == fTwiceDeploy {
+			init = iDeploy
+		}
+		pre, off, size := factoryInit(init)
+		c := append([]byte{}, pre...)
+		one := []byte{0x60, 0x2a, 0x60, size, 0x60, off, 0x60, 0x01, 0xf5}
+		c = append(c, one...)
+		c = append(c, 0x50)
+		return append(c, one...)
+	case fOccupied:
+		k = fCreate*nFactoryInits + iEmpty
+	}
 	op, init := k/nFactoryInits, k%nFactoryInits
 	c, off, size := factoryInit(init)
 	c = append([]byte{}, c...)
@@ -234,6 +274,14 @@ func factoryCode(k int) []byte {
 		c = append(c, 0xf5)
 	}
 	return append(c, 0x50, 0x00) // POP STOP
+}
+
+// factoryCreations: how many CREATE/CREATE2 the factory performs when it runs to its end.
+func factoryCreations(k int) uint64 {
+	if k == fTwiceEmpty || k == fTwiceDeploy {
+		return 2
+	}
+	return 1
 }
 
 func wrapperCode(k int) []byte {
@@ -374,7 +422,8 @@ func buildWorld() *world {
 		}
 		keys = append(keys, k)
 	}
-	senders = []common.Address{crypto.PubkeyToAddress(keys[0].PublicKey), crypto.PubkeyToAddress(keys[1].PublicKey)}
+	senders = []common.Address{crypto.PubkeyToAddress(keys[0].PublicKey), crypto.PubkeyToAddress(keys[1].PublicKey),
+		crypto.PubkeyToAddress(keys[3].PublicKey), crypto.PubkeyToAddress(keys[4].PublicKey)}
 	valAddr = crypto.PubkeyToAddress(keys[2].PublicKey)
 
 	configsOnce.Do(func() {
@@ -404,6 +453,13 @@ func buildWorld() *world {
 	// the universe
 	g.Alloc[senders[0]] = genesis.GenesisAccount{Balance: richBalance, Nonce: senderNonce}
 	g.Alloc[senders[1]] = genesis.GenesisAccount{Balance: poorBalance, Nonce: senderNonce}
+	// collision family: the address a creation by these senders at their current nonce derives is already occupied
+	g.Alloc[senders[2]] = genesis.GenesisAccount{Balance: richBalance, Nonce: senderNonce}
+	g.Alloc[senders[3]] = genesis.GenesisAccount{Balance: richBalance, Nonce: senderNonce}
+	g.Alloc[crypto.CreateAddress(senders[2], senderNonce)] = genesis.GenesisAccount{Balance: big.NewInt(21), Nonce: 1, Code: []byte{0x00}}
+	g.Alloc[crypto.CreateAddress(senders[3], senderNonce)] = genesis.GenesisAccount{Balance: big.NewInt(0), Nonce: 1}
+	// ... and so is the address the CREATE of the "occupied" factory derives (factory nonce 1)
+	g.Alloc[crypto.CreateAddress(factoryAddr(fOccupied), 1)] = genesis.GenesisAccount{Balance: big.NewInt(23), Nonce: 1, Code: []byte{0x00}}
 	g.Alloc[addrCoinbase] = genesis.GenesisAccount{Balance: big.NewInt(17)}
 	g.Alloc[addrEOA] = genesis.GenesisAccount{Balance: big.NewInt(7)}
 	g.Alloc[addrX] = genesis.GenesisAccount{Balance: big.NewInt(11)}
@@ -437,6 +493,11 @@ func buildWorld() *world {
 	name := func(a common.Address, n string) { wd.names[string(crypto.Keccak256(a[:]))] = n }
 	name(senders[0], "sender-rich")
 	name(senders[1], "sender-poor")
+	name(senders[2], "sender-collider-code")
+	name(senders[3], "sender-collider-nonce")
+	name(crypto.CreateAddress(senders[2], senderNonce), "occupant-with-code")
+	name(crypto.CreateAddress(senders[3], senderNonce), "occupant-with-nonce-only")
+	name(crypto.CreateAddress(factoryAddr(fOccupied), 1), "occupant-of-factory-create-address")
 	name(valAddr, "validator")
 	name(addrCoinbase, "coinbase")
 	name(addrEOA, "eoa-target")
